@@ -1151,8 +1151,17 @@ func handlerHistory(e *Env) {
 		}
 		simrt.Settle(time.Minute)
 		// lines after the end are legitimately discarded: only "never twice,
-		// never under another name" is checked for this run
+		// never under another name" is checked for this run - and that an event
+		// which was dispatched at all was dispatched to both sets: the permanent
+		// sentinels of its name either both ran or neither did, whenever the
+		// connection went down
 		for _, ev := range evts {
+			e.Check()
+			if !isFree[ev.name] && (ev.fgEnter != 0) != (ev.bgEnter != 0) {
+				e.Violation("sentinel-missed", "event %d (%s) was dispatched while the connection was being ended: its permanently registered foreground sentinel ran=%v, its background sentinel ran=%v (an event invokes the handlers of both sets)",
+					ev.seq, ev.name, ev.fgEnter != 0, ev.bgEnter != 0)
+				return
+			}
 			for _, h := range regs {
 				cnt := h.runs[ev.seq]
 				if cnt > 1 {
